@@ -298,10 +298,10 @@ func TestVerif(t *testing.T) {
 			spec, hist := genCase(e.Seed, c, e.Tier)
 			jobs = append(jobs, job{rp: syncdrv.Replay{Seed: e.Seed, Case: c, Chain: spec, History: hist}, gen: true})
 		}
-		// long backlogs behind one missing block, the hole filled last (one per size stratum; thorough: two)
-		nbk := len(syncdrv.BacklogSizes)
+		// long backlogs behind one missing block, the hole filled last (quick: one per size stratum up to 257; thorough: two per stratum up to 301)
+		nbk := 3
 		if e.Tier == "thorough" {
-			nbk *= 2
+			nbk = 2 * len(syncdrv.BacklogSizes)
 		}
 		for c := 0; c < nbk; c++ {
 			spec, hist := syncdrv.GenBacklog(syncdrv.CaseRng(e.Seed+2671, c), c)
@@ -389,7 +389,7 @@ func TestVerif(t *testing.T) {
 		}
 	}
 	res.Distinct = len(distinct)
-	res.Rule = "chains of 3..13 blocks (thorough: ..41) from a real aggregator Manager (initial height in {1,2,5,1000}, ~35% empty blocks with runs, 10% of chains repeat a non-empty tx list); history = every header/data event of the chain (25% of histories drop ~8% of events), duplicated 1-3x, order in {sorted, reversed, headers-first, data-first, near-sorted, shuffled}, random DA tags, 0-2 clean restarts (SaveCache + NewManager); a third of the chains is produced by an aggregator and synced by a node with a NON-default signature payload provider (block.ManagerOptions; headers are handed to SyncLoop with the provider attached, as both ingress paths do); 40% of the histories carry 1-3 transient store read faults (the store handed to the syncing Manager fails one chosen store.Height() call while one event is handled: the read of the SyncLoop case, or a read inside trySyncNextBlock which makes SyncLoop return until the next start; GetBlockData failing in handleEmptyDataHash), every event lost to a failed read is delivered again later; non-trivial = at least 4 items and 2 applied blocks; distinct = distinct (chain, history) pairs; plus the DA-ingress scenario stream (real RetrieveLoop + SyncLoop on a scripted DA layer, stop right after a commit, restart, converge; oracle only); plus the P2P-ingress scenario stream (real HeaderStoreRetrieveLoop + DataStoreRetrieveLoop, with the real SyncLoop or with the harness as consumer of the event channels, on fake go-header stores whose height jumps by 1..300 between signals over a 320-block chain; transient read failures, DA position changes, clean restarts, stops inside a burst; every wake-up compared with Model/P2PIngress.v in cases_C02_p2p.v)"
+	res.Rule = "chains of 3..13 blocks (thorough: ..41) from a real aggregator Manager (initial height in {1,2,5,1000}, ~35% empty blocks with runs, 10% of chains repeat a non-empty tx list); history = every header/data event of the chain (25% of histories drop ~8% of events), duplicated 1-3x, order in {sorted, reversed, headers-first, data-first, near-sorted, shuffled}, random DA tags, 0-2 clean restarts (SaveCache + NewManager); a third of the chains is produced by an aggregator and synced by a node with a NON-default signature payload provider (block.ManagerOptions; headers are handed to SyncLoop with the provider attached, as both ingress paths do); 40% of the histories carry 1-3 transient store read faults (the store handed to the syncing Manager fails one chosen store.Height() call while one event is handled: the read of the SyncLoop case, or a read inside trySyncNextBlock which makes SyncLoop return until the next start; GetBlockData failing in handleEmptyDataHash), every event lost to a failed read is delivered again later; non-trivial = at least 4 items and 2 applied blocks; distinct = distinct (chain, history) pairs; plus long backlogs (one history per size stratum: a run of 8..65 / 99..129 / 199..257 (thorough: ..301) complete blocks waiting behind one missing block, delivered top-down / bottom-up / by channel / shuffled, the hole filled last, nothing new afterwards; clean restarts and failing height reads inside the long trySyncNextBlock call); plus the DA-ingress scenario stream (real RetrieveLoop + SyncLoop on a scripted DA layer, stop right after a commit, restart, converge; requests that come back with errors of every class — generic, deadline and cancellation in both spellings, height from the future, not found — at GetIDs or at Get or hang until their deadline, 1..12 times per DA height before the height is served; every request served, the scan position and the node's height compared with Model/DAIngress.v in cases_C02_da.v); plus the P2P-ingress scenario stream (real HeaderStoreRetrieveLoop + DataStoreRetrieveLoop, with the real SyncLoop or with the harness as consumer of the event channels, on fake go-header stores whose height jumps by 1..300 between signals over a 320-block chain; transient read failures, DA position changes, clean restarts, stops inside a burst; every wake-up compared with Model/P2PIngress.v in cases_C02_p2p.v)"
 	res.Cases += len(cases)
 	path := filepath.Join(e.Out, "cases_C02.v")
 	if err := vgen.WriteCases(path, syncdrv.CoqHeader, defs, "scase", cases, "mismatches"); err != nil {
